@@ -92,7 +92,7 @@ class ApplicationRules:
         except SyntaxError:
             raise ApplicationStatusParseError('AST parse failure')
         # there must be only one element in the body
-        if len(tree.body) != 1:
+        if len(tree.body) != 1 or type(tree.body[0]) is not ast.Expr:
             raise ApplicationStatusParseError('unsupported AST expression')
         # store the expression
         self._status_formula = formula
